@@ -3,7 +3,7 @@
 Require Extraction.
 Require Import ExtrOcamlBasic.
 From Coq Require Import ZArith List.
-From LasV Require Import Lib.Base Lib.Layout Spec.Asprs Spec.AsprsPoints Model.PointLayout.
+From LasV Require Import Lib.Base Lib.Layout Spec.Asprs Spec.AsprsPoints Model.PointLayout Model.RecordPlace.
 Extraction Language OCaml.
 Extraction "../ocaml/c02/model.ml"
   Z.add Z.mul Z.sub Z.div_eucl Z.compare Z.of_nat Z.to_nat
@@ -12,4 +12,5 @@ Extraction "../ocaml/c02/model.ml"
   gen_record_summary spec_record_summary spec_legacy_ok
   spec_hdr_layout spec_enc_header spec_dec_header
   spec_vlr_hdr_layout spec_enc_vlr_header spec_dec_vlr_header
-  spec_eb_descriptor spec_enc_eb_descriptor spec_dec_eb_descriptor layout_names.
+  spec_eb_descriptor spec_enc_eb_descriptor spec_dec_eb_descriptor layout_names
+  record_at spec_dec_records append_session edit_record.
